@@ -3,11 +3,12 @@
 // The concurrent findings are demonstrated by demo_W1.cpp / demo_DR.cpp / demo_CT.cpp; this adapter is single-submitter.
 //
 // input file (name value lines, see native/replay_io.h):  INIT <initialSize> MAX <maxSize> QUEUE <maxQueueSize> TASKS <n> THROW <k: every k-th task throws, 0 = none>
-//   SCENARIO W1 | DR | CT   runs the committed concurrent scenario of that finding instead (same logic as demo_W1/DR/CT.cpp; unit.json
+//   SCENARIO W1 | DR | CT | RS   runs the committed concurrent scenario of that finding instead (same logic as demo_W1/DR/CT.cpp; unit.json
 //   replay_scenarios maps the obligations WB1/SP3, DR1/DR2, CT1 to them); optional TRIALS <n> for W1 / DR
 #include "iora/core/thread_pool.hpp"
 #include "replay_io.h"
 #include <atomic>
+#include <future>
 // W1: submitters that pass the `_threads.size() < _maxSize` check together all spawn
 static void scenario_W1(long trials)
 {
@@ -47,6 +48,36 @@ static void scenario_DR(long trials)
   }
   replay_io::ok("DR scenario: no early drain in " + std::to_string(trials) + " trials");
 }
+// RS: stop() -> reset() -> start() on a fixed-size pool; every round submits N tasks that must all be running at the same time.
+// A worker born by start() while _shutdown is still set exits at once and its map slot stays dead: the round cannot complete.
+static void scenario_RS(long rounds)
+{
+  constexpr std::size_t N = 4;
+  iora::core::ThreadPool pool(N, N, std::chrono::seconds(30), 64);
+  for (long round = 0; round < rounds; ++round)
+  {
+    std::atomic<std::size_t> arrived{0};
+    std::atomic<bool> giveUp{false};
+    std::vector<std::future<bool>> futs;
+    for (std::size_t i = 0; i < N; ++i)
+      futs.push_back(pool.enqueueWithResult([&arrived, &giveUp]() { arrived.fetch_add(1);
+        while (arrived.load() < N && !giveUp.load()) std::this_thread::sleep_for(std::chrono::milliseconds(1));
+        return arrived.load() >= N; }));
+    bool ok = true;
+    for (auto &f : futs) if (f.wait_for(std::chrono::seconds(2)) != std::future_status::ready) { ok = false; break; }
+    if (!ok)
+    {
+      std::string msg = "ST4 round " + std::to_string(round) + ": accepted tasks not executed after restart: " + std::to_string(arrived.load()) + " of 4 started, map holds " +
+        std::to_string(pool.getTotalThreadCount()) + " workers, " + std::to_string(pool._threadsCreated.load() - pool._threadsExited.load()) + " alive, " + std::to_string(pool.getPendingTaskCount()) + " tasks still queued";
+      giveUp = true;
+      for (auto &f : futs) f.wait_for(std::chrono::seconds(1));
+      printf("REPLAY-FAIL: %s\n", msg.c_str()); fflush(stdout); _Exit(1);
+    }
+    for (auto &f : futs) f.get();
+    if (!pool.stop().success || !pool.reset().success || !pool.start().success) replay_io::fail("restart cycle stop/reset/start failed");
+  }
+  replay_io::ok("RS scenario: " + std::to_string(rounds) + " restart rounds, every accepted task ran");
+}
 // CT: a pool that can never have a worker accepts work
 static void scenario_CT()
 {
@@ -68,6 +99,7 @@ int main(int argc, char **argv)
     if (sc == "W1") { scenario_W1(trials ? trials : 50); return 0; }
     if (sc == "DR") { scenario_DR(trials ? trials : 10000); return 0; }
     if (sc == "CT") { scenario_CT(); return 0; }
+    if (sc == "RS") { scenario_RS(trials ? trials : 40); return 0; }
     replay_io::fail("unknown SCENARIO " + sc);
   }
   auto get = [&](const char *k, size_t d) { return in.count(k) ? (size_t)replay_io::u64(in[k]) : d; };
